@@ -202,6 +202,13 @@ func (m *Machine) tryClauses(cp *choicepoint) bool {
 		mp := map[int64]*T{}
 		head := m.renameClause(c.Head, mp)
 		mark := len(m.trail)
+		if len(head.Args) > 0 {
+			pairs := make([][2]*T, len(head.Args))
+			for i := range head.Args {
+				pairs[i] = [2]*T{head.Args[i], cp.goal.Args[i]}
+			}
+			m.noteSTO(pairs)
+		}
 		ok := true
 		for i := range head.Args {
 			if !m.unify(head.Args[i], cp.goal.Args[i]) {
